@@ -45,7 +45,7 @@ def call_closure(c, path, clos_term, call_args, at, edge, site):
         return BOT
     r = eng.summary(path, args, caller=(c.path, c.args, site))
     if c.final and c.is_live() and at is not None:
-        eng.mark_live(path, args)
+        c.note_callee(path, args)
     return r
 
 
@@ -129,9 +129,16 @@ def call_model(c, t, at, edge):
         a = tuple(av(x) for x in args)
         if any(x[0] == "b" for x in a):
             return BOT
+        if c.choice is not None and c.choice[0] == name:
+            D = eng.disjuncts(name, c.choice[1])
+            if D and c.choice[2] < len(D):
+                eng.summary(name, a, caller=(c.path, c.args, site))
+                if c.final and c.is_live() and at is not None:
+                    c.note_callee(name, a)
+                return D[c.choice[2]][1]
         r = eng.summary(name, a, caller=(c.path, c.args, site))
         if c.final and c.is_live() and at is not None:
-            eng.mark_live(name, a)
+            c.note_callee(name, a)
         return r
     if f is not None and f["kind"] == "Closure":
         # direct call of a closure body: (env, tupled args)
@@ -146,7 +153,7 @@ def call_model(c, t, at, edge):
             return BOT
         r = eng.summary(name, a, caller=(c.path, c.args, site))
         if c.final and c.is_live() and at is not None:
-            eng.mark_live(name, a)
+            c.note_callee(name, a)
         return r
     # ---------------------------------------------------------------- closure invocation through Fn traits
     if short in ("call", "call_mut", "call_once") and ("ops::Fn" in name or "FnMut" in name or "FnOnce" in name or "function::" in name):
@@ -271,6 +278,32 @@ def call_model(c, t, at, edge):
                 acc = nacc
             return acc
         return c.top_for(t)
+    if short == "contains" and "ops::Range" in name and len(args) == 2:
+        from .query import resolve_promoted
+        rng, x = args
+        for _ in range(6):
+            while rng[0] in ("ref", "deref"):
+                rng = rng[2] if rng[0] == "ref" else rng[1]
+            if rng[0] == "promoted":
+                rng = resolve_promoted(facts, rng)
+            else:
+                break
+        xv = deref_av(av(x))
+        lo = hi = None
+        incl = False
+        if rng[0] == "agg" and rng[2].startswith("std::ops::Range::") and len(rng[3]) == 2:
+            lo, hi = av(rng[3][0]), av(rng[3][1])
+        elif rng[0] == "call" and isinstance(rng[1], str) and rng[1].endswith("RangeInclusive::new") and len(rng[2]) == 2:
+            lo, hi = av(rng[2][0]), av(rng[2][1])
+            incl = True
+        if lo is not None and xv[0] == "i" and lo[0] == "i" and hi[0] == "i":
+            top = hi[1] if incl else hi[1] - 1      # certainly-inside upper bound
+            if xv[1] >= lo[2] and xv[2] <= top:
+                return I(1, 1)
+            topmax = hi[2] if incl else hi[2] - 1
+            if xv[2] < lo[1] or xv[1] > topmax:
+                return I(0, 0)
+        return I(0, 1)
     if name.endswith("HashSet::contains") or name.endswith("HashSet::insert") or name.endswith("HashMap::contains_key"):
         return I(0, 1)
     # ---------------------------------------------------------------- Option / Result
@@ -432,6 +465,28 @@ def call_model(c, t, at, edge):
         return c.top_for(t)
     if name.endswith("LocalKey::with"):
         return c.top_for(t)
+    if short == "parse" and len(args) == 1:
+        # x.to_string().parse::<int>() yields Ok(x) when x fits the target type (decimal round trip), else Err
+        x = args[0]
+        for _ in range(8):
+            if x[0] in ("ref", "deref"):
+                x = x[2] if x[0] == "ref" else x[1]
+            elif x[0] == "call" and isinstance(x[1], str) and x[2] and (x[1].endswith("::deref") or x[1].endswith("::as_str") or x[1].endswith("::borrow")):
+                x = x[2][0]
+            else:
+                break
+        if x[0] == "call" and isinstance(x[1], str) and x[1].endswith("::to_string") and len(x[2]) == 1:
+            src = deref_av(av(x[2][0]))
+            ty = c.ft.tyof(t) or ""
+            tgt = top_of_type(ty, facts)
+            okp = variant_payload(tgt, "Ok") if tgt[0] == "e" else None
+            if src[0] == "i" and okp is not None and okp[0] == "i":
+                inner = meet(src, okp)
+                out = {"Err": S({"0": TOP})}
+                if inner[0] != "b":
+                    out["Ok"] = S({"0": inner})
+                return E(out)
+        return c.top_for(t)
     # ---------------------------------------------------------------- formatting & strings: pure, opaque
     if name.startswith("core::fmt") or name.startswith("std::fmt") or name.startswith("alloc::fmt") or short in ("to_string", "must_use", "parse", "format"):
         return c.top_for(t)
@@ -498,7 +553,7 @@ def default_value(c, t, at, edge, site):
                 (f["kind"] == "AssocFn" and path.endswith("as std::default::Default>::default") and ty and ty.split("::")[-1] in path):
             r = c.eng.summary(path, (), caller=(c.path, c.args, site))
             if c.final and c.is_live() and at is not None:
-                c.eng.mark_live(path, ())
+                c.note_callee(path, ())
             return r
     return top_of_type(ty, c.facts)
 
